@@ -150,10 +150,15 @@ class _Rand:
 
     def __init__(self) -> None:
         self.tag = b"\x00\x00"
+        self.calls = 0
 
     def randbytes(self, n: int) -> bytes:
+        """A stream of DISTINCT 2-octet values (tag, tag+1, ...): like the real RNG, no two calls agree,
+        so code that draws the message tag twice for one frame shows up."""
         assert n == 2
-        return self.tag
+        out = ((int.from_bytes(self.tag, "big") + self.calls) & 0xFFFF).to_bytes(2, "big")
+        self.calls += 1
+        return out
 
     def uniform(self, a: float, b: float) -> float:
         return a
@@ -229,6 +234,7 @@ def set_ids(serial: bytes, tag: bytes) -> None:
     ips.XKNX_SERIAL_NUMBER = serial
     ips.MESSAGE_TAG_TUNNELLING = tag
     RAND.tag = tag
+    RAND.calls = 0
 
 
 def reset_ids() -> None:
@@ -550,7 +556,12 @@ def check_wrap(ctx, case: dict) -> None:
         except Exception as e:  # noqa: BLE001
             ctx.fail(f"C28:encrypt-exc:{exc_site(e)}", inp, "".join(traceback.format_exception_only(type(e), e)))
             return
-        expect = ref.wrap(key, sid, seq.to_bytes(6, "big"), serial, tag, plain)
+        # the reference is computed from the fields the wrapper actually carries: a SecureGroup draws its
+        # message tag from a random source (here a stream of distinct values starting at `tag`)
+        wire_tag = bytes(wrapped.body.message_tag) if isinstance(wrapped.body, SecureWrapper) else tag
+        if kind == "session" and wire_tag != tag:
+            ctx.fail("C28:wire-tag:session", inp, f"session wrapper carries tag {wire_tag.hex()}, MESSAGE_TAG_TUNNELLING is {tag.hex()}")
+        expect = ref.wrap(key, sid, seq.to_bytes(6, "big"), serial, wire_tag if len(wire_tag) == 2 else tag, plain)
         ctx.case(wire, nontrivial=True, cls=[f"wrap:{kind}", f"frame:{ftype}"], sample={"kind": kind, "frame": ftype, "plain_len": len(plain), "seq": seq, "sid": sid})
         if wire != expect:
             ctx.fail(f"C28:wire-neq-ref:{first_diff_region(wire, expect)}:{kind}", inp, f"xknx {wire.hex()} ref {expect.hex()}")
